@@ -310,6 +310,8 @@ fn run_io(c: &IoCase) -> CaseResult {
     let mut wrapped = pb.wrap_read(w_obj.clone());
     let mut e = Expect { pos: 0, slack: 0 };
     let mut v = Verdict::default();
+    // read_to_string / read_line append to strings that are kept across calls
+    let (mut acc1, mut acc2) = (String::new(), String::new());
     for (i, op) in c.ops.iter().enumerate() {
         let before = w_obj.st().delivered;
         let ctx = format!("op #{i} {op:?}");
@@ -369,10 +371,10 @@ fn run_io(c: &IoCase) -> CaseResult {
                 }
             }
             IoOp::ReadToString => {
-                let (mut s1, mut s2) = (String::new(), String::new());
-                let (r1, r2) = (wrapped.read_to_string(&mut s1), plain.read_to_string(&mut s2));
+                let (r1, r2) = (wrapped.read_to_string(&mut acc1), plain.read_to_string(&mut acc2));
                 same!(r1, r2);
-                ensure!(s1 == s2, "transparency", "{ctx}: data differs");
+                ensure!(acc1 == acc2, "transparency", "{ctx}: data differs");
+                v.label_if(acc1.len() > r1.as_ref().map_or(0, |n| *n), "read_into_non_empty_string");
                 match r1 {
                     Ok(k) => e.pos += k as u64,
                     Err(_) => e.slack += w_obj.st().delivered - before,
@@ -380,10 +382,9 @@ fn run_io(c: &IoCase) -> CaseResult {
             }
             IoOp::ReadLine => {
                 // BufRead::read_line is built from fill_buf/consume
-                let (mut s1, mut s2) = (String::new(), String::new());
-                let (r1, r2) = (wrapped.read_line(&mut s1), plain.read_line(&mut s2));
+                let (r1, r2) = (wrapped.read_line(&mut acc1), plain.read_line(&mut acc2));
                 same!(r1, r2);
-                ensure!(s1 == s2, "transparency", "{ctx}: data differs");
+                ensure!(acc1 == acc2, "transparency", "{ctx}: data differs");
                 // consume() was called for everything that was taken, also on failure
                 e.pos += w_obj.st().delivered - before;
             }
@@ -987,7 +988,7 @@ pub fn property() -> Property {
                 cases: |t| t.pick(6_000, 300_000),
                 run: run_io,
                 signature: no_signature,
-                essential: &["short_transfer", "error", "partial_consume", "write_all_failed_midway", "seek", "vectored", "fill_buf"],
+                essential: &["short_transfer", "error", "partial_consume", "write_all_failed_midway", "seek", "vectored", "fill_buf", "read_into_non_empty_string"],
                 workers: w,
                 decode: None,
             }),
